@@ -163,6 +163,9 @@ class GridEval:
                 return ("range", self.ev(t[3][0]), self.ev(t[3][1]), False)
             if nm.endswith("ops::RangeInclusive") and len(t[3]) >= 2:
                 return ("range", self.ev(t[3][0]), self.ev(t[3][1]), True)
+            if _unit_of(nm) != 1 and len(t[3]) == 1:
+                # F2Dot14(raw) / Fixed(raw)
+                return self.ev(t[3][0]) / _unit_of(nm)
             raise Undecided("aggregate %s" % nm)
         if k == "field":
             # newtype field of a parameter: the raw representation (F2Dot14(i16), Fixed(i32))
